@@ -6,9 +6,15 @@
    Domain assumptions of the main theorem: cyclomatic complexities are >= 1 (results_wf) and the cycle limit
    in force is not negative (0 <= eff_max_cycles); C19_negative_max_cycles shows what happens below 0. *)
 From Coq Require Import ZArith List.
-From PV Require Import Gen.DomainConst Gen.CheckConst Cli.Gate Cli.GateProofs Cli.GateMono Cli.GateLines Cli.GateRun Cli.GateSpecB.
+From PV Require Import Gen.DomainConst Gen.CheckConst Cli.Gate Cli.GateProofs Cli.GateMono Cli.GateLines Cli.GateRun Cli.GateSpecB Tie.GateTie.
 Import ListNotations.
 Open Scope Z_scope.
+
+(* tie to the code: check_complexity and run_check of the model agree with the decision tables the translator obtained by
+   running checkComplexity / runCheck of the current cmd/pyscn/check.go with the analyses stubbed out (Gen/CheckTables.v) *)
+Theorem C19_decision_tables : gate_tables_agree = true /\ gate_tables_nonempty = true.
+Proof. exact gate_tables_agree_ok. Qed.
+Print Assumptions C19_decision_tables.
 
 (* exit status 0 <-> --select valid /\ (complexity selected -> it ran /\ no function exceeds the effective maximum)
    /\ (dead code selected -> it ran /\ (--allow-dead-code \/ no finding at the gate severity))
